@@ -4,8 +4,8 @@ CONSTANTS
   PiCount <- MCPiCount
   Canonical = "canonical"
   ExpectedPis = 21
-  KeyMode = "virtual"
+  KeyMode = "baked"
   MaxSlots = 3
-  LoopMode = "all"
+  LoopMode = "skiplast"
 INVARIANTS RecInv
 CHECK_DEADLOCK FALSE
